@@ -137,3 +137,20 @@ Print Assumptions C13_invariant_example.
 Print Assumptions C13_assign_preserves_invariant.
 Print Assumptions C13_destroy_then_copy_refuted.
 Print Assumptions C13_assign_orders_agree_when_shared.
+
+(* THE DESTRUCTOR STEALS EVERY CHILD, FROM THE SOURCE.  translate/gen_dtor.py re-reads data.hpp (the members of type Tree of
+   every alternative of the node variant) and Tree::~Tree in tree.cpp (the members its get_if ladder pushes on the work list;
+   the skeleton - decrement-and-test, `t == ptr || !--t->refcount`, `delete t` last, the constructor's `d->refcount++` - is
+   checked by shape) on every run (Gen/TreeDtor_gen.v).  Every alternative that has Tree members is handled and ALL of them are
+   moved out before `delete t`, which is what the model's [drop_loop] assumes when it continues with all kids of a freed node;
+   a member left in place would be destroyed recursively by the node's own destructor (stack depth = chain length) *)
+From LF Require Gen.TreeDtor_gen Conc.RefcountDtor.
+Theorem C13_destructor_steals_every_child :
+  forall alt fs, In (alt, fs) TreeDtor_gen.node_tree_fields_gen -> fs <> nil ->
+  exists s, RefcountDtor.lookup alt TreeDtor_gen.dtor_stolen_gen = Some s /\ s = fs.
+Proof. exact RefcountDtor.destructor_steals_every_child. Qed.
+(* [dtor_tables_shape]: unary [lhs], binary [lhs; rhs], remap [x; y; z; t], apply [target; value; t]; 8 alternatives *)
+Theorem C13_destructor_tables_shape : RefcountDtor.dtor_tables_shape.
+Proof. exact RefcountDtor.dtor_tables_shape_ok. Qed.
+Print Assumptions C13_destructor_steals_every_child.
+Print Assumptions C13_destructor_tables_shape.
